@@ -17,6 +17,9 @@ pub enum Step {
     /// modification time back (`cp -p`, `rsync -t`, an edit within the clock's granularity)
     WriteSameStamp(String, Vec<u8>),
     Mkdir(String),
+    /// a file relative to the directory the build script is *started in* (not the crate directory): relative
+    /// paths handed to the API are resolved against the crate directory, never against the current directory
+    CwdWrite(String, Vec<u8>),
     /// a symbolic link `link -> target` (target relative to the link's directory, as `ln -s` takes it)
     Symlink(String, String),
     Remove(String),
@@ -36,6 +39,9 @@ pub enum SOp {
     /// add_sass_file(path); the second field lists every file the stylesheet loads (itself, partials,
     /// imports), which the model cannot know (rsass is opaque) but the harness does: it wrote them
     X(String, Vec<String>),
+    /// the closure / thread that holds the StaticFiles handle panics here (after the calls before it); the panic
+    /// is caught and the build script goes on: the handle is dropped by unwinding
+    P,
 }
 
 #[derive(Clone, Debug)]
@@ -92,7 +98,8 @@ pub fn child(file: &str) {
                 println!("HARNESS-ERROR compile_templates: {e:?}");
             }
         }
-        {
+        let names_cell = std::cell::RefCell::new(String::new());
+        let _ = std::panic::catch_unwind(std::panic::AssertUnwindSafe(|| {
             let mut st = match ructe.statics() {
                 Ok(s) => s,
                 Err(e) => {
@@ -101,6 +108,12 @@ pub fn child(file: &str) {
                 }
             };
             for o in &ops[first_static..] {
+                if o[0] == "P" {
+                    for (k, v) in st.get_names() {
+                        names_cell.borrow_mut().push_str(&format!("{}={}\n", hex(k.as_bytes()), hex(v.as_bytes())));
+                    }
+                    panic!("the closure holding the StaticFiles handle panics");
+                }
                 let r = match o[0].as_str() {
                     "F" => st.add_file(unhex_s(&o[1])).map(|_| ()),
                     "D" => st.add_files(unhex_s(&o[1])).map(|_| ()),
@@ -117,9 +130,10 @@ pub fn child(file: &str) {
                 }
             }
             for (k, v) in st.get_names() {
-                names.push_str(&format!("{}={}\n", hex(k.as_bytes()), hex(v.as_bytes())));
+                names_cell.borrow_mut().push_str(&format!("{}={}\n", hex(k.as_bytes()), hex(v.as_bytes())));
             }
-        }
+        }));
+        names = names_cell.into_inner();
         for o in &ops[first_static..] {
             if o[0] == "T" {
                 if let Err(e) = ructe.compile_templates(unhex_s(&o[1])) {
@@ -351,6 +365,9 @@ pub fn run_once(exe: &Path, root: &Path, outdir: &Path, script: &[SOp], k: usize
                 child_ops.push(format!("X {}", hex(pass(p).as_bytes())));
                 alltext.push_str(&abs(p));
             }
+            SOp::P => {
+                child_ops.push("P".to_string());
+            }
             SOp::B(p, data) => {
                 let a = abs(p);
                 ops_model.push(format!("B:{}:{}", hex(pass(p).as_bytes()), hex(data)));
@@ -447,6 +464,13 @@ pub fn apply(root: &Path, outdir: &Path, s: &Step) {
         }
         Step::Mkdir(rel) => {
             let _ = std::fs::create_dir_all(indir.join(rel));
+        }
+        Step::CwdWrite(rel, c) => {
+            let p = root.join(rel);
+            if let Some(d) = p.parent() {
+                let _ = std::fs::create_dir_all(d);
+            }
+            let _ = std::fs::write(p, c);
         }
         Step::Symlink(link, target) => {
             let p = indir.join(link);
@@ -653,7 +677,14 @@ fn rand_content(r: &mut Rng) -> Vec<u8> {
                 b"body{color:black}\n".to_vec()
             }
         }
-        5 => b"\"quoted\" \\ back\nslash \r\n\t\0 \x7f \xff".to_vec(),
+        5 => {
+            if r.chance(1, 2) {
+                b"\"quoted\" \\ back\nslash \r\n\t\0 \x7f \xff".to_vec()
+            } else {
+                // text that looks like the placeholders of a template for the generated item
+                b"Unsupported type {mime}; {content} {name} {path} {rust_name} {} {0} {{x}} %s $1".to_vec()
+            }
+        }
         _ => {
             let n = r.range(1, 300);
             r.bytes(n)
@@ -685,6 +716,10 @@ fn statics_scenario(r: &mut Rng, twin: usize) -> Scenario {
         let n = *r.pick(STATIC_NAMES);
         let rel = format!("single/{n}");
         steps.push(Step::Write(rel.clone(), rand_content(r)));
+        if r.chance(1, 3) {
+            // a file of the same relative name, with other bytes, where the build script is started
+            steps.push(Step::CwdWrite(rel.clone(), b"decoy in the current directory".to_vec()));
+        }
         match r.below(3) {
             0 => script.push(SOp::F(rel)),
             1 => {
@@ -730,6 +765,18 @@ fn statics_scenario(r: &mut Rng, twin: usize) -> Scenario {
         steps.push(Step::Write("templates/page.rs.html".into(), GOOD_TEMPLATES[1].as_bytes().to_vec()));
         script.push(SOp::T("templates".into()));
     }
+    if r.chance(1, 5) {
+        // a file added by name through a symbolic link whose target is called something else (a content-addressed
+        // store): identifier and URL name come from the name it was added under, the bytes from the target
+        let (link, target) = *r.pick(&[("logo.png", "9f3c2a.png"), ("style.css", "style.v2.min.css"), ("app.js", "noextension"), ("7up.txt", "blob.bin")]);
+        steps.push(Step::Write(format!("store/{target}"), rand_content(r)));
+        steps.push(Step::Symlink(format!("bylink/{link}"), format!("../store/{target}")));
+        if r.chance(1, 2) {
+            script.push(SOp::F(format!("bylink/{link}")));
+        } else {
+            script.push(SOp::A(format!("bylink/{link}"), format!("ln/{link}")));
+        }
+    }
     if r.chance(1, 4) {
         // paths as people write them: `./x`, `dir/../x`, and a `..` that crosses a symbolic link — the file the
         // operating system resolves (realdeep/odd.css) is not the one at the lexically tidied path (odd.css)
@@ -764,10 +811,21 @@ fn statics_scenario(r: &mut Rng, twin: usize) -> Scenario {
             }
         }
     }
+    if r.chance(1, 6) {
+        // optional directories that do not exist (`let _ = statics.add_files_as("node_modules/dist", "vendor");`)
+        script.push(SOp::S("no_such_dir/dist".into(), "vendor".into()));
+        if r.chance(1, 2) {
+            script.push(SOp::D("no_such_static".into()));
+        }
+    }
     // shuffle the script order
     for i in (1..script.len()).rev() {
         let j = r.below(i + 1);
         script.swap(i, j);
+    }
+    if r.chance(1, 8) && script.iter().all(|o| !matches!(o, SOp::T(_))) {
+        // the handle is dropped by unwinding: everything added before is still written out
+        script.push(SOp::P);
     }
     let mut steps = dedup_steps(steps);
     steps.push(Step::Run);
@@ -836,9 +894,38 @@ fn tree_scenario(r: &mut Rng, twin: usize, allow_bad: bool) -> Scenario {
         steps.push(Step::Write("shared/linked.rs.html".into(), GOOD_TEMPLATES[1].as_bytes().to_vec()));
         steps.push(Step::Symlink("templates/linked.rs.html".into(), "../shared/linked.rs.html".into()));
     }
+    let mut script = vec![SOp::T("templates".into())];
+    if r.chance(1, 4) {
+        // a second template directory compiled by the same Ructe (mail templates next to the pages): its functions
+        // join the same `templates` module; nothing the first call produced may be disturbed
+        let mut any = false;
+        for stem in ["notice", "digest", "receipt"] {
+            if r.chance(2, 3) {
+                let c = if allow_bad && r.chance(1, 6) { BAD_TEMPLATES[1] } else { *r.pick(GOOD_TEMPLATES) };
+                steps.push(Step::Write(format!("mail/{stem}.rs.{}", r.pick(EXTS)), c.as_bytes().to_vec()));
+                any = true;
+            }
+        }
+        if !any {
+            steps.push(Step::Mkdir("mail".into()));
+        }
+        if r.chance(1, 2) {
+            script.push(SOp::T("mail".into()));
+        } else {
+            script.insert(0, SOp::T("mail".into()));
+        }
+    }
+    if r.chance(1, 8) {
+        // an optional template directory that does not exist: the call fails, the script goes on
+        if r.chance(1, 2) {
+            script.insert(0, SOp::T("no_such_templates".into()));
+        } else {
+            script.push(SOp::T("no_such_templates".into()));
+        }
+    }
     let mut steps = dedup_steps(steps);
     steps.push(Step::Run);
-    Scenario { kind: "tree", steps, script: vec![SOp::T("templates".into())], twin }
+    Scenario { kind: "tree", steps, script, twin }
 }
 
 fn shuffled_twin(r: &mut Rng, s: &Scenario) -> Scenario {
@@ -856,10 +943,24 @@ fn history_scenario(r: &mut Rng) -> Scenario {
     let mut steps = vec![Step::Mkdir("templates".into()), Step::Mkdir("static".into())];
     rand_tree(r, 2, "templates/", &mut steps, true);
     steps.push(Step::Write("static/style.css".into(), b"a{}".to_vec()));
+    if r.chance(1, 4) {
+        steps.push(Step::Write("shared/linked.rs.html".into(), GOOD_TEMPLATES[3].as_bytes().to_vec()));
+        steps.push(Step::Symlink("templates/linked.rs.html".into(), "../shared/linked.rs.html".into()));
+    }
     let mut steps = dedup_steps(steps);
     steps.push(Step::Run);
-    let script = vec![SOp::T("templates".into()), SOp::D("static".into())];
-    let files: Vec<String> = steps.iter().filter_map(|s| if let Step::Write(p, _) = s { Some(p.clone()) } else { None }).collect();
+    let mut script = vec![SOp::T("templates".into()), SOp::D("static".into())];
+    if r.chance(1, 5) {
+        // an optional template directory that is not there: the call fails, the script goes on
+        if r.chance(1, 2) {
+            script.insert(0, SOp::T("no_such_templates".into()));
+        } else {
+            script.insert(1, SOp::T("no_such_templates".into()));
+        }
+    }
+    // (the target of a symbolic link is not edited: a dangling link makes compile_templates fail half-way, which is
+    // an error of the build script's environment, not something the properties speak about)
+    let files: Vec<String> = steps.iter().filter_map(|s| if let Step::Write(p, _) = s { Some(p.clone()) } else { None }).filter(|p| !p.starts_with("shared/")).collect();
     let nedits = r.range(1, 4);
     for _ in 0..nedits {
         match r.below(12) {
@@ -1083,9 +1184,42 @@ pub fn run(args: &crate::Args) {
                             // what differs says which other promises are broken too: an index file = the module tree
                             // (C10), a template's file = the generated function is not the one its template describes
                             Some(_) if q.ends_with("/mod.rs") || q.ends_with("/templates.rs") => fail("[\"C12\",\"C18\",\"C10\"]", "incremental-differs", format!("{q} differs from a clean build"), &mut orc),
-                            Some(_) if q.rsplit('/').next().map_or(false, |f| f.starts_with("template_")) => fail("[\"C12\",\"C18\",\"C01\",\"C04\",\"C13\"]", "incremental-differs", format!("{q} differs from a clean build"), &mut orc),
+                            Some(_) if q.rsplit('/').next().map_or(false, |f| f.starts_with("template_")) => fail("[\"C12\",\"C18\",\"C01\",\"C03\",\"C04\",\"C13\"]", "incremental-differs", format!("{q} differs from a clean build"), &mut orc),
                             Some(_) => fail("[\"C12\",\"C18\"]", "incremental-differs", format!("{q} differs from a clean build"), &mut orc),
                             None => fail("[\"C12\"]", "incremental-missing", format!("{q} missing, present in a clean build"), &mut orc),
+                        }
+                    }
+                    // the index of a clean build is there iff the index of this run is (a run that writes no
+                    // templates.rs leaves the one of an earlier build in place)
+                    for idx in ["templates.rs"] {
+                        let a = res.after.contains_key(&outdir.join(idx).display().to_string());
+                        let b = clean.after.contains_key(&clean_root.join("out").join(idx).display().to_string());
+                        if a != b {
+                            fail("[\"C12\",\"C10\"]", "index-presence-differs", format!("{idx}: present after this run: {a}, after a clean build: {b}"), &mut orc);
+                        }
+                    }
+                    // no declaration without its file (whatever the script looks like): every `mod template_x;` and
+                    // `pub mod d;` of every index a clean build writes has the file it names
+                    for (p, c) in &clean.after {
+                        if !(p.ends_with("/mod.rs") || p.ends_with("/templates.rs")) {
+                            continue;
+                        }
+                        let dir = if p.ends_with("/templates.rs") { format!("{}/templates", &p[..p.len() - "/templates.rs".len()]) } else { p[..p.len() - "/mod.rs".len()].to_string() };
+                        for l in String::from_utf8_lossy(c).lines() {
+                            let l = l.trim();
+                            let target = if let Some(m) = l.strip_prefix("mod template_").and_then(|x| x.strip_suffix(';')) {
+                                Some(format!("{dir}/template_{m}.rs"))
+                            } else if let Some(m) = l.strip_prefix("pub mod ").and_then(|x| x.strip_suffix(';')) {
+                                if m == "statics" { Some(format!("{dir}/statics.rs")) } else { Some(format!("{dir}/{m}/mod.rs")) }
+                            } else {
+                                None
+                            };
+                            if let Some(t) = target {
+                                stats.hit("declarations.checked");
+                                if !clean.after.contains_key(&t) {
+                                    fail("[\"C10\",\"C04\"]", "declaration-without-file", format!("{p} declares `{l}` but {t} does not exist after the run"), &mut orc);
+                                }
+                            }
                         }
                     }
                     if clean.stdout != res.stdout {
@@ -1235,8 +1369,10 @@ fn check_tree(
     fail: &mut dyn FnMut(&str, &str, String),
     stats: &mut Counter,
 ) {
-    // only for scripts whose template calls are exactly one compile_templates("templates")
-    if sc.script.iter().filter(|o| matches!(o, SOp::T(_))).count() != 1 {
+    // only for scripts whose template calls are exactly one compile_templates("templates") — plus, possibly, calls on
+    // directories that do not exist (they fail and must change nothing)
+    let real: Vec<&String> = sc.script.iter().filter_map(|o| if let SOp::T(d) = o { Some(d) } else { None }).filter(|d| root.join("in").join(d).is_dir()).collect();
+    if real.len() != 1 || real[0] != "templates" {
         return;
     }
     let tdir = root.join("in/templates");
@@ -1297,8 +1433,8 @@ fn check_tree(
             continue;
         }
         match clean.after.get(p) {
-            None => fail("[\"C10\"]", "template-file-missing", format!("{p} was not written for a template that parses")),
-            Some(d) if d != c => fail("[\"C10\",\"C18\"]", "template-file-content", format!("{p} is not the code generated for that template alone")),
+            None => fail("[\"C10\",\"C11\"]", "template-file-missing", format!("{p} was not written for a template that parses")),
+            Some(d) if d != c => fail("[\"C10\",\"C18\",\"C11\",\"C01\"]", "template-file-content", format!("{p} is not the code generated for that template alone")),
             _ => {}
         }
         // C18: same (name, bytes) => same code, wherever and whenever it is compiled
@@ -1317,7 +1453,7 @@ fn check_tree(
         let has = text.lines().any(|l| l.trim() == needle);
         if has != *present {
             fail(
-                "[\"C10\"]",
+                "[\"C10\",\"C04\"]",
                 if *present { "declaration-missing" } else { "declaration-for-broken-template" },
                 format!("{file}: `{needle}` {}", if *present { "missing" } else { "present although the template does not parse" }),
             );
@@ -1352,7 +1488,7 @@ fn check_tree(
         }
         let warned = clean.stdout.iter().any(|l| l.starts_with("cargo:warning=") && l.contains(path.as_str()));
         if *broken && !warned {
-            fail("[\"C10\"]", "broken-template-not-reported", format!("no cargo:warning names {path}"));
+            fail("[\"C10\",\"C11\"]", "broken-template-not-reported", format!("no cargo:warning names {path}"));
         }
         if !*broken && warned {
             fail("[\"C10\"]", "valid-template-warned", format!("a cargo:warning names the valid template {path}"));
